@@ -105,6 +105,10 @@ def harness(L, sw, ch, sr, K, mode, group):
                 runs["aw"] = list(core.split(data, sr=sr, sw=sw, ch=ch, analysis_window=aw, aw=SymRat(B + 1, sr), validator=mkval(), **skw))
                 stage = "val"
                 runs["val"] = list(core.split(data, sr=sr, sw=sw, ch=ch, analysis_window=aw, validator=mkval(), val=lambda f: False, **skw))
+                stage = "long=None"
+                runs["validator=None + val"] = None
+                runs["max_read=None + mr"] = list(core.split(data, sr=sr, sw=sw, ch=ch, analysis_window=aw, validator=mkval(), max_read=None, mr=SymRat(I("B"), 2 * sr), **skw))
+                runs.pop("validator=None + val")
                 stage = "fmt"
                 runs["fmt"] = list(core.split("in.dat", analysis_window=aw, validator=mkval(), audio_format="wav", fmt="raw", **skw))
                 runs["fmt-short"] = list(core.split("in.dat", analysis_window=aw, validator=mkval(), fmt="wav", **skw))
@@ -117,6 +121,11 @@ def harness(L, sw, ch, sr, K, mode, group):
                 r1 = list(core.split(data, sr=sr, sw=sw, ch=ch, analysis_window=aw, energy_threshold=eth, eth=eth2, use_channel=0, uc="mix", **skw))
                 r2 = list(core.split(data, sr=sr, sw=sw, ch=ch, analysis_window=aw, eth=eth, uc="mix", **skw))
                 r3 = list(core.split(data, sr=sr, sw=sw, ch=ch, analysis_window=aw, **skw))
+                n3 = len(seen)
+                r4 = list(core.split(data, sr=sr, sw=sw, ch=ch, analysis_window=aw, validator=None, val=lambda f: False, use_channel=None, uc=0, **skw))
+                conds[("validator parameters", "explicit None for the long name still wins")] = len(seen) == n3 + 1 and seen[-1][3] is None
+                conds[("same regions whatever the threshold spelling", "long=None")] = regions_equal(base, r4)
+                del seen[n3:]
                 conds[("validator parameters", "long wins")] = len(seen) == 3 and seen[0][3] == 0 and bool(seen[0][1] == sw) and seen[0][2] == ch
                 if len(seen) == 3:
                     conds[("validator parameters", "threshold long wins")] = SymRat.of(seen[0][0]).eqz(eth)
@@ -241,6 +250,8 @@ def replay_fn(c):
             eth = c["eth8"] / 8
             runs["energy_threshold/eth, use_channel/uc"] = lambda: ak.split(data, sr=sr, sw=sw, ch=ch, analysis_window=aw, energy_threshold=eth, eth=eth + 1, use_channel=0, uc="mix", **skw)
             runs["eth, uc only"] = lambda: ak.split(data, sr=sr, sw=sw, ch=ch, analysis_window=aw, eth=eth, uc="mix", **skw)
+            runs["max_read=None and mr"] = lambda: ak.split(data, sr=sr, sw=sw, ch=ch, analysis_window=aw, validator=val(), max_read=None, mr=B / (2 * sr), **skw)
+            runs["validator=None, use_channel=None and val, uc"] = lambda: ak.split(data, sr=sr, sw=sw, ch=ch, analysis_window=aw, validator=None, val=lambda f: False, use_channel=None, uc=0, **skw)
         else:
             mrc = byt.max_read_concrete(c["Mq"], sr)
             if mrc is None:
@@ -263,6 +274,8 @@ def replay_fn(c):
                          desc + ": %s -> %s, reference -> %s" % (name, [(a, b, len(d)) for a, b, d in got], [(a, b, len(d)) for a, b, d in base]))]
             if name.startswith("energy_threshold/eth") and (len(seen) != 1 or seen[0][0] != c["eth8"] / 8 or seen[0][3] != 0):
                 return [("C09: long parameter name does not win over its alias", desc + ": validator built with %s" % (seen,))]
+            if name.startswith("validator=None") and (len(seen) != 1 or seen[0][3] is not None):
+                return [("C09: an explicit None for the long name does not win over its alias", desc + ": validator built with %s" % (seen,))]
             if name == "eth, uc only" and (len(seen) != 1 or seen[0][0] != c["eth8"] / 8 or seen[0][3] != "mix"):
                 return [("C09: short alias alone is not honoured", desc + ": validator built with %s" % (seen,))]
         return []
